@@ -112,6 +112,49 @@ FRAGMENTS = [
 ]
 
 
+SPECIAL_LITS = [b"\\", b"\\1", b"\\g<0>", b"$1", b"&", b"\\U", b"a\\", b"\\x", b".*", b"(", b"[a", b"\\d+", b"^", b"$"]
+
+
+def replace_special(rng):
+    """the three replace dialects with literals that are special to regular-expression patterns / replacement templates (the decoders do PLAIN substitution)"""
+    x = rng.choice([b"C:#Users#Public#run.ps1", b"a.b.c", b"tth.exe-path", b"aXbXc", b"p(q)r", b"1+1=2"])
+    a = rng.choice([b"#", b".", b"th", b"X", b"(", b"+", b"1"])
+    b = rng.choice(SPECIAL_LITS)
+    q = rng.choice([b"'", b'"'])
+    k = rng.randrange(3)
+    if k == 0:
+        return b"$p = " + b"'" + x + b"' -replace '" + a + b"','" + b + b"'"
+    if k == 1:
+        return b"x = " + q + x + q + b".replace(" + q + a + q + b", " + q + b + q + b")"
+    return b"y = Replace(" + b'"' + x + b'", "' + a + b'", "' + b + b'")'
+
+
+def xor_document(rng):
+    """several statements in one document, each its own stack of layers, with xor keys given literally (-bxor 35), by variable (-bxor $k) or not at all, at
+    different nesting depths: what one statement decodes to must not depend on the others"""
+    def stmt(tail=None, wraps=None):
+        inner = rng.choice([b"[System.Convert]::FromBase64String('" + base64.b64encode(rng.choice([b"GV@H", b"http://evil.example.com/x.exe", b"duck duck goose"])) + b"')",
+                            b"FromHexString('" + rng.choice([b"GV@H payload here", b"http://a.example.org/"]).hex().encode() + b"')"])
+        if tail is None:
+            tail = rng.choice([b"", b"", b" -bxor 35", b" -bxor $k", b" -bxor 7", b"; $k = 70 -bxor 35"])
+        text = b"$b=" + inner + tail + b";"
+        for _ in range(rng.randint(0, 3) if wraps is None else wraps):
+            l = rng.choice([stacks.BY_NAME[n] for n in ("b64", "atob", "hex", "unescape", "FromBase64String", "xml")])
+            if not l.dom(text) or len(text) > 1500:
+                break
+            text = b"$s = " + l.enc(text) + b";"
+        return text
+    k = rng.random()
+    if k < 0.3:      # key written out in the OUTER layer, used through a variable one or two layers further in
+        return b"$k = 70 -bxor 35\r\n" + b"\r\n".join([stmt(b" -bxor $k", rng.randint(1, 2))] + [stmt() for _ in range(rng.randint(0, 2))])
+    if k < 0.45:     # the reverse: variable outside, literal inside
+        return b"$x = $y -bxor $k\r\n" + b"\r\n".join([stmt(b" -bxor 35", rng.randint(1, 2))] + [stmt() for _ in range(rng.randint(0, 2))])
+    if k < 0.6:      # a literal key deep in the FIRST statement, none in the second
+        return stmt(b" -bxor 35", rng.randint(2, 3)) + b"\r\n" + stmt(b"", rng.randint(0, 1)) + b"\r\n" + stmt(b" -bxor $k", rng.randint(0, 1))
+    head = rng.choice([b"", b"$k = 70 -bxor 35\r\n", b"# no key here\n"])
+    return head + b"\r\n".join(stmt() for _ in range(rng.randint(2, 3)))
+
+
 def splice(rng, n=None):
     k = n or rng.randint(1, 6)
     return b"".join(rng.choice(FRAGMENTS) if rng.random() < 0.8 else bytes(rng.randrange(256) for _ in range(rng.randint(1, 4))) for _ in range(k))
@@ -197,5 +240,6 @@ def gen_inputs(rng, n, kinds=("indicator", "shell", "stack", "splice", "regex"))
             else:
                 out.append(embed(rng, splice(rng)))
         else:
-            out.append(splice(rng))
+            r = rng.random()
+            out.append(replace_special(rng) if r < 0.12 else xor_document(rng) if r < 0.3 else splice(rng))
     return out
